@@ -19,12 +19,12 @@ MAIN_ACTIONS = ["SetNextK", "SetNextB", "UndoK", "UndoB", "Mark", "Step", "End",
                 "Reboot", "Firmware", "InitBase", "InitKernel", "BootOK", "BootFail"]
 
 
+QUICK = {"UC20grub": ["k", "b"], "UC20ns": ["k"], "UC16": ["kb"]}
+THOROUGH = {"UC20grub": ["k", "b", "kb", "k3b2"], "UC20ns": ["k", "b", "kb", "k3b2"], "UC16": ["k", "b", "kb", "k3b2", "k3b3"]}
+
+
 def _cfgs(ctx, variant):
-    q = ["k", "b", "kb"]
-    t = ["k", "b", "kb", "k3b2"]
-    if variant == "UC16":
-        t.append("k3b3")
-    return ["BootTry_mc_%s_%s.cfg" % (variant, x) for x in ctx.pick(q, t)]
+    return ["BootTry_mc_%s_%s.cfg" % (variant, x) for x in ctx.pick(QUICK, THOROUGH)[variant]]
 
 
 class Acc:
@@ -46,7 +46,7 @@ class Acc:
 
 def job_mc(ctx, acc, variant, cfg, workers, rng):
     big = "k3b" in cfg
-    cov = cfg.endswith("_kb.cfg")
+    cov = cfg.endswith("_kb.cfg") and not ctx.quick
     res, dump = bt.mc(ctx, cfg, dump=True, coverage=cov, workers=workers, timeout=ctx.pick(900, 2400),
                       heap="12g" if big else None)
     if not res.ok:
@@ -63,6 +63,19 @@ def job_mc(ctx, acc, variant, cfg, workers, rng):
         tlc.require_coverage(res, need)
     cases = bt.cases_from_dump(dump, variant, limit=ctx.pick(1200, 40000), rng=rng)
     nact = sum(1 for c in cases if c["kind"] == "act")
+    census = {}
+    for c in cases:
+        k = c["full"]["act"]["name"] if c["kind"] == "act" else "init:" + c["full"]["boot"]["phase"]
+        census[k] = census.get(k, 0) + 1
+    want = {"Mark"}
+    if "_b.cfg" not in cfg:
+        want |= {"SetNextK", "UndoK"}
+    if "_k.cfg" not in cfg:
+        want |= {"SetNextB", "UndoB"}
+    if variant != "UC16":
+        want.add("init:ins" if variant == "UC20ns" else "init:ibase")
+    if want - set(census):
+        raise InfraError("vacuity guard: %s reaches no %s cases" % (cfg, sorted(want - set(census))))
     events = bt.run_driver(ctx, cases, cfg[11:-4], procs=ctx.pick(1, 4))
     v, ncases, nlines = bt.validate_events(ctx, variant, cases, events, cfg[11:-4])
     ctx.log("%s: %d distinct states (%.0fs), %d act + %d initramfs cases on real code, %d events validated, %d violations" % (
@@ -74,7 +87,7 @@ def job_mc(ctx, acc, variant, cfg, workers, rng):
         acc.cases_ok += ncases
         acc.lines += nlines
         acc.per_cfg[cfg] = {"distinct": res.distinct, "generated": res.generated, "depth": res.depth,
-                            "wall_s": round(res.wall, 1), "act_cases": nact, "init_cases": len(cases) - nact}
+                            "wall_s": round(res.wall, 1), "real_cases": census}
         if cov:
             acc.action_cov[variant] = tlc.coverage_summary(res)
         if len(acc.samples) < 6 and cases:
@@ -88,7 +101,7 @@ def job_mc(ctx, acc, variant, cfg, workers, rng):
 def job_sim(ctx, acc, variant, rng):
     """T->I: replay TLC -simulate behaviours (incl. PowerLoss at any pc) on one persistent real state each."""
     cfg = "BootTry_mc_%s_kb.cfg" % variant
-    num = ctx.pick(120, 2500)
+    num = ctx.pick(60, 2000)
     res = tlc.run(ctx, "BootTry", cfg, workers=1, simulate={"num": num, "file": True}, depth=ctx.pick(60, 90),
                   seed=ctx.seed, timeout=ctx.pick(600, 1800), name="sim_" + variant)
     if res.kind is not None and res.kind != "error":
@@ -160,7 +173,7 @@ def job_strict(ctx, acc, variant):
     elif res.name == "OnlyGoodOrTried" and variant == "UC16":
         last = steps[-1]["vars"]
         fs = e["final_real_state"]
-        key = "stale-try-var UC16 snap_try_%s re-activated" % ("core" if last["boot"]["rb"] not in last["h"]["goodb"] + [last["h"]["trialb"]] else "kernel")
+        key = "stale-try-var UC16 cancelled snap_try_* re-activated by SetNextBoot"
         desc = ("UC16: after the real calls %s the real bootenv is %s: a snap_try_* variable whose trial snapd has cancelled "
                 "(setNext(current) returned 'already clean' / only cleared its own variable) is re-activated by the next "
                 "SetNextBoot (snap_mode=try is shared); per the documented boot script the device boots kernel %d + base %d, "
@@ -219,7 +232,7 @@ def run(ctx):
             jobs.append((job_mc, (ctx, acc, v, cfg, w, random.Random(rng.random()))))
         jobs.append((job_sim, (ctx, acc, v, random.Random(rng.random()))))
         jobs.append((job_live, (ctx, acc, v)))
-        jobs.append((job_strict, (ctx, acc, v)) if v != "UC20ns" or True else None)
+        jobs.append((job_strict, (ctx, acc, v)))
     # biggest first
     jobs.sort(key=lambda j: 0 if (j[0] is job_mc and "k3b" in j[1][3]) else 1)
     errs = []
